@@ -200,7 +200,9 @@ void resourceLayout(Ctx& ctx, const Layout& L, const std::string& label)
 		std::string expect; bool expectNull = true;
 		std::string plain = q.rfind("./", 0) == 0 ? q.substr(2) : q;
 		if (std::find(loose.begin(), loose.end(), plain) != loose.end() && L.place.count(plain)) { expect = contentOf(plain, "loose"); expectNull = false; }
-		else if (access) for (auto& arch : order) { bool found = false; for (auto& m : archiveMembers[arch]) if (ref::equalFold(m, plain)) { expect = memberContent(arch, m); expectNull = false; found = true; break; } if (found) break; }
+		// from an archive: "a member of that name from a loaded archive" - which archive, when several hold the name, is not said
+		std::vector<std::string> alsoRight;
+		if (expectNull && access) for (auto& arch : order) for (auto& m : archiveMembers[arch]) if (ref::equalFold(m, plain)) { if (expectNull) { expect = memberContent(arch, m); expectNull = false; } else alsoRight.push_back(memberContent(arch, m)); break; }
 		std::unique_ptr<Stream::BidirectionalReader> st;
 		auto o = mc::guarded([&] { st = rm->GetResourceStream(q, access != 0); });
 		ctx.transition();
@@ -210,6 +212,7 @@ void resourceLayout(Ctx& ctx, const Layout& L, const std::string& label)
 		if (!st) { bad("no-stream-for-existing-resource", key, "expected '" + expect + "'"); continue; }
 		std::string got(std::size_t(st->Length()), '\0');
 		auto orr = mc::guarded([&] { st->Read(&got[0], got.size()); });
+		if (orr.cls == 'R' && got != expect && std::find(alsoRight.begin(), alsoRight.end(), got) != alsoRight.end()) { ctx.count("resources/from-another-archive-holding-the-name"); continue; }
 		if (orr.cls != 'R' || got != expect) bad("wrong-bytes", key, "got '" + got + "' expected '" + expect + "'");
 	}
 	for (const std::string& q : { std::string("/a.txt"), std::string("/etc/passwd"), root + "/a.txt", std::string("/") }) {
@@ -280,6 +283,10 @@ void resourceLayout(Ctx& ctx, const Layout& L, const std::string& label)
 		if (o.cls != 'R') { bad("containing-archive-throws", key, o.what); continue; }
 		std::string plain = q.rfind("./", 0) == 0 ? q.substr(2) : q;
 		bool any = false; for (auto& am : archiveMembers) for (auto& m : am.second) if (ref::equalFold(m, plain)) any = true;
+		// the statement asks that a reported archive contain the name; that one is reported whenever some archive does is demanded
+		// only where no loose file of that name takes precedence (then no archive serves the resource, and none need be reported)
+		bool shadowed = false; for (auto& lf : loose) if (ref::equalFold(lf, plain)) shadowed = true;
+		if (got.empty() && any && shadowed) { ctx.count("resources/containing-archive-not-reported-for-a-shadowed-name"); continue; }
 		if (got.empty() != !any) { bad("containing-archive-emptiness", key, "returned '" + got + "'"); continue; }
 		if (!got.empty()) {
 			auto s = got.rfind('/'); std::string file = s == std::string::npos ? got : got.substr(s + 1);
